@@ -13,7 +13,7 @@ Rules (one `bad` verdict each):
   when it finds nothing at all: it would go to sleep on a posted completion);
   a post is refused only when `completionRingSize` completions are undelivered (`post-refused`);
   the queue hands over exactly the accepted messages in FIFO order, drops / refuses / blocks only as its flags
-  say, wakes a blocked writer at the next successful dequeue, reports consistent statistics and ring indices;
+  say, wakes a blocked writer at the next successful dequeue or clear, reports consistent statistics and ring indices;
   a timed join returns within its bound, true exactly when the thread has finished; a worker is RUNNING from
   create until its procedure has returned; stopping the timer is bounded and no callback runs afterwards.
 -/
@@ -153,7 +153,8 @@ def judgeCore (s : JState) (e : Ev) : JState :=
       else s.flag s!"queue-counters expected={q.enq}/{q.deq}/{q.drop} got={enq}/{deq}/{drop}"
     | none => s.flag "stat-without-queue"
   | .qclear => match s.q with
-    | some q => { s with q := some { q with contents := [] } }
+    -- clearing makes room: a writer asleep on the full queue must be woken (next event `unblocked`)
+    | some q => { s with q := some { q with contents := [], mustWake := q.blocked.isSome } }
     | none => s
   | .wnew w fin => s.setW w { exited := fin }
   | .wstate w st => match s.getW w with
@@ -206,6 +207,7 @@ def judgeCore (s : JState) (e : Ev) : JState :=
   | .tcleanup => { s with tInited := false, tActive := false }
   | .mt kind ok detail => if ok then s else s.flag s!"mt-{kind} {detail}"
   | .hbrace _ ticked => if ticked then s else s.flag "timer-not-firing"
+  | .hbowed kept => if kept then s else s.flag "tick-swallowed a tick that arrived inside call_heart_beat was wiped by its clear"
   | .race what => s.flag s!"data-race {what}"
   | .skip _ => s
 
